@@ -719,6 +719,23 @@ func (env *SpecEnv) call(e *SExpr) Val {
 	case "bytes":
 		v := arg(0)
 		return Val{T: fmt.Sprintf("(mk_bytes false %s)", v.T), S: SBytes, GT: types.NewSlice(types.Typ[types.Uint8])}
+	case "by":
+		// by(thm(args)): the instance of a proved theorem (a bool ghost macro declared `theorem thm`) is added to the
+		// facts at this point; the expression itself is true. Sound because the theorem is proved for all arguments.
+		if len(e.Args) != 1 || e.Args[0].Op != "call" {
+			env.fail("by(...) takes one application of a theorem")
+		}
+		th := env.ex.P.theorems[e.Args[0].Name]
+		if th == nil {
+			env.fail("by(%s(...)): %s is not declared as a theorem", e.Args[0].Name, e.Args[0].Name)
+		}
+		inst := env.Eval(e.Args[0])
+		if len(env.bound) > 0 {
+			env.fail("by(...) under a quantifier is not supported")
+		}
+		env.ex.vc.Assume(inst.T)
+		env.ex.vc.usedContracts["theorem "+shortPkg(th.Pkg)+"."+th.Name] = true
+		return Val{T: "true", S: SBool}
 	case "aimed":
 		// aimed(x, s): every store reachable from x (a store, a master store's parts, a context struct) is aimed at state s
 		v, s := arg(0), arg(1)
